@@ -304,7 +304,7 @@ def structural_type(t):
         return frozenset([{"list": "list", "set": "set", "dict": "dict", "gen": "generator"}[t[1]]])
     if k == "closure" or k == "partial":
         return frozenset(["function"])
-    if k == "nt" or (k == "obj" and len(t) == 3):
+    if k == "nt" or (k in ("obj", "enum") and len(t) == 3):
         return frozenset(["obj:" + t[1]])
     if k == "call":
         r = RET_TYPES.get(t[1])
@@ -1682,6 +1682,17 @@ class Walker:
             t = G("builtin:" + r[1])
         else:
             raise AnalysisError("unresolved name %s at %s" % (r[1], self.site(node)))
+        rest = list(rest)
+        if k == "class" and rest:
+            ci_e = self.prog.classes.get(r[1])
+            if ci_e is not None and ci_e.is_enum and rest[0] in ci_e.enum_members():
+                t = ("enum", ci_e.qualname, rest.pop(0))
+                if rest and rest[0] == "name":
+                    t, rest = C(t[2]), rest[1:]
+                elif rest and rest[0] == "value":
+                    v = self.eng.static_term(ci_e.mod, ci_e.enum_members()[t[2]])
+                    if v is not None:
+                        t, rest = v, rest[1:]
         for a in rest:
             t = ("attr", t, a)
         return t
@@ -1733,6 +1744,23 @@ class Walker:
                 r = self.prog.resolve_name(self.prog.by_short[b[1][7:]], e.attr)
                 outs.append((s, "val", self.resolution_term(r, [], e)))
                 continue
+            if b[0] == "global" and b[1].startswith("class:"):
+                ci_e = self.prog.classes.get(b[1][6:])
+                if ci_e is not None and ci_e.is_enum and e.attr in ci_e.enum_members():
+                    outs.append((s, "val", ("enum", ci_e.qualname, e.attr)))
+                    continue
+            if b[0] == "enum" and len(b) == 3:
+                ci_e = self.prog.classes.get(b[1])
+                if e.attr == "name":
+                    outs.append((s, "val", C(b[2])))
+                    continue
+                if e.attr == "value" and ci_e is not None:
+                    v = self.eng.static_term(ci_e.mod, ci_e.enum_members()[b[2]])
+                    outs.append((s, "val", v if v is not None else ("attr", b, "value")))
+                    continue
+                if ci_e is not None and self.prog.find_method(b[1], e.attr) is not None:
+                    outs.append((s, "val", ("attr", b, e.attr)))
+                    continue
             nt = b
             if b[0] == "global" and b[1].startswith("const:"):
                 lit = self.eng.const_literal(b[1][6:])
